@@ -186,3 +186,71 @@ Definition applied_shift (n : nat) (min_image_shift : option Q) (shifts : nat ->
 Definition align_translation_knots (n : nat) (min_image_shift : option Q) (shifts : nat -> vec)
            (kn : nat -> knots_t) (i : nat) : knots_t :=
   fun r j => vadd (kn i r j) (applied_shift n min_image_shift shifts i).
+
+(* ====================================================================================== *)
+(* Round-3 extension (additive; nothing above is changed)                                 *)
+(* ====================================================================================== *)
+
+Definition vscale (k : Q) (a : vec) : vec := (k * fst a, k * snd a).
+
+(* ------------------------------------------------------------------ straight knot arrays *)
+(* ANY knot array whose K knots of scan line r lie on a straight line with uniform spacing:
+   knot j of line r sits at A r + (j / (K-1)) * B r  (K = 1: the single knot is A r).
+   The initial knots of preprocess are the instance A r = centre - (W-1)/2 fast + v_slow[r] slow,
+   B r = (W-1) fast; the knots after align_translation (A r + d) and after the knot update of
+   align_affine (A r + (r - (H-1)/2) dxy) are further instances. *)
+Definition straight_knots (K : nat) (A B : nat -> vec) : knots_t :=
+  fun r j => vadd (A r) (vscale (basis K j) (B r)).
+
+(* the knot update of align_affine (outside the property; modelled because it keeps scan lines
+   straight): knots[a0][:, r, :] += dxy * (r - (rows-1)/2) *)
+Definition affine_update_knots (H : nat) (dxy : vec) (kn : knots_t) : knots_t :=
+  fun r j => vadd (kn r j) (vscale (qn r - half_extent H) dxy).
+
+(* ------------------------------------------------------------------ preprocess, end to end *)
+(* the canvas of preprocess for an H x W stack and the weight map of one freshly placed image *)
+Definition preprocess_weights (H W K : nat) (pad s c : Q) : list Q :=
+  let rows := canvas_dim H pad in
+  let cols := canvas_dim W pad in
+  warp_weights rows cols H W K s c (init_knot rows cols H W K s c).
+
+(* ------------------------------------------------------------------ warp_image(upsample_factor) *)
+(* bilinear_kde(xa * up, ya * up, output_shape = round(output_shape * up)): `urows`, `ucols` are the
+   rounded upsampled canvas dimensions *)
+Definition warp_weights_up (urows ucols : Z) (up : Q) (H W K : nat) (s c : Q) (kn : knots_t)
+  : list Q :=
+  weight_map urows ucols (map (vscale up) (pixel_coordinates H W K s c kn)).
+
+(* ------------------------------------------------------------------ bilinear_kde(max_batch_size) *)
+(* pix_count[k] accumulated batch by batch: sum over batches of np.bincount(inds_1D, weights)[k] *)
+Definition cell_weight_batched (rows cols : Z) (batches : list (list vec)) (k : Z) : Q :=
+  qsum (map (fun b => cell_weight (contributions rows cols b) k) batches).
+
+(* (row, column) of a flat canvas index, as np.unravel_index / reshape(output_shape) reads it *)
+Definition unravel (cols k : Z) : Z * Z := ((k / cols)%Z, (k mod cols)%Z).
+
+(* ------------------------------------------------------------------ align_translation, more *)
+(* the running reference of the measuring loop, per Fourier coefficient (real or imaginary part):
+     F_ref = F_ref * ind / (ind + 1) + image_shift / (ind + 1)        for ind = 1, 2, ...
+   `ref_fold k ref xs`: ref is the reference before image k (k >= 1), xs the shifted images k, k+1, ... *)
+Definition ref_update (ref : Q) (k : nat) (x : Q) : Q :=
+  ref * qn k / qn (S k) + x / qn (S k).
+Fixpoint ref_fold (k : nat) (ref : Q) (xs : list Q) : Q :=
+  match xs with
+  | [] => ref
+  | x :: xs' => ref_fold (S k) (ref_update ref k x) xs'
+  end.
+(* reference after the images x0, x1, ..., x_m have been merged *)
+Definition ref_after (x0 : Q) (xs : list Q) : Q := ref_fold 1 x0 xs.
+
+(* several passes of align_translation; pass p measures `shifts_of p` *)
+Fixpoint align_passes (n : nat) (mis : option Q) (passes : list (nat -> vec)) (kn : nat -> knots_t)
+  : nat -> knots_t :=
+  match passes with
+  | [] => kn
+  | sh :: rest => align_passes n mis rest (fun i => align_translation_knots n mis sh kn i)
+  end.
+
+(* total displacement applied to image i by one pass *)
+Definition displacement (n : nat) (mis : option Q) (shifts : nat -> vec) (i : nat) : vec :=
+  applied_shift n mis shifts i.
